@@ -13,6 +13,9 @@
 (*              "adjoint"    op.adjoint(x)       (x in ran, result in dom)  *)
 (*              "inverse"    op.inverse(x)       (x in ran, result in dom)  *)
 (*      x, y flat C-order arrays of Gaussian rationals, c Gaussian rational *)
+(*      xafter  contents of the caller's input object after the call        *)
+(*      rdt     data type class of the result (= of the fill), odt of the   *)
+(*              operator's range; linear: op.is_linear (1 | 0, -1 n/a)      *)
 (*  "range"   geometry of a constructed ResizingOperator:                   *)
 (*      [lo, hi, dom, ran, given, offs, ranlo, ranhi, ranshape, rancell,    *)
 (*       axes, dbdry, rbdry, rannode0, invok]                               *)
@@ -45,18 +48,28 @@ ResizeClauses(e) ==
   LET mg == Meaning(e)
       offs == EffOffs(mg[3], mg[4], e.offs)          \* entries on unchanged axes are ignored
       adm == AdmissibleND(e.mode, mg[1], mg[3], mg[4], offs)
-      lin == e.mode # "constant" \/ e.c = CZero
-  IN
-  IF ~ValidOffsets(mg[3], mg[4], offs) THEN {<<"bad-event-offsets", 0>>}
-  \* what a pseudo-inverse fills in where it has to extend is not fixed by the statement: values are judged only
-  \* when the inverse is a pure cropping (the operator is a pure extension)
-  ELSE IF e.variant = "inverse" /\ \E a \in 1..Len(e.dom) : e.dom[a] > e.ran[a] THEN {}
-  ELSE IF ~adm \/ (e.variant = "adjoint" /\ ~lin) \/ (e.variant = "array" /\ e.dir = "adjoint" /\ ~lin)
-    THEN (IF e.err = "" THEN {<<"not-raised", 0>>} ELSE {})
-  ELSE IF e.err # "" THEN {<<"raised", 0>>}
-  ELSE LET exp == Resize(e.mode, mg[1], mg[2], mg[3], mg[4], offs, e.x)
-       IN  IF Len(e.y) # Len(exp) THEN {<<"shape", Len(e.y)>>}
-           ELSE IF \E k \in 1..Len(exp) : e.y[k] # exp[k] THEN {<<"value", 0>>} ELSE {}
+      lin == IsLinearResize(e.mode, e.c)
+      grows == \E a \in 1..Len(mg[3]) : mg[4][a] > mg[3][a]
+      \* the fill is a value of the result's data type e.rdt; decided here iff the constant is representable in it
+      fillok == ~(e.mode = "constant" /\ grows) \/ Representable(mg[2], e.rdt)
+      \* the caller's input (array-like of any kind, possibly sharing memory with the array worked on) is unchanged
+      frame == IF e.xafter # e.x THEN {<<"input-modified", 0>>} ELSE {}
+      \* is_linear of the operator, judged on the actual constant (operator events only; -1: not applicable)
+      flag == IF e.linear # -1 /\ Representable(e.c, e.odt) /\ ((e.linear = 1) # lin)
+                THEN {<<"linear-flag", 0>>} ELSE {}
+      value ==
+        IF ~ValidOffsets(mg[3], mg[4], offs) THEN {<<"bad-event-offsets", 0>>}
+        \* what a pseudo-inverse fills in where it has to extend is not fixed by the statement: values are judged only
+        \* when the inverse is a pure cropping (the operator is a pure extension)
+        ELSE IF e.variant = "inverse" /\ \E a \in 1..Len(e.dom) : e.dom[a] > e.ran[a] THEN {}
+        ELSE IF ~adm \/ (e.variant = "adjoint" /\ ~lin) \/ (e.variant = "array" /\ e.dir = "adjoint" /\ ~lin)
+          THEN (IF e.err = "" THEN {<<"not-raised", 0>>} ELSE {})
+        ELSE IF e.err # "" THEN {<<"raised", 0>>}
+        ELSE IF ~fillok THEN {}
+        ELSE LET exp == Resize(e.mode, mg[1], mg[2], mg[3], mg[4], offs, e.x)
+             IN  IF Len(e.y) # Len(exp) THEN {<<"shape", Len(e.y)>>}
+                 ELSE IF \E k \in 1..Len(exp) : e.y[k] # exp[k] THEN {<<"value", 0>>} ELSE {}
+  IN  value \cup frame \cup flag
 
 RangeClauses(e) ==
   LET d == Len(e.dom)
